@@ -136,7 +136,7 @@ pub fn split_texts(args: &Args, rng: &mut Rng, tr: &mut Shards) -> usize {
         RFmt { delim: b'|', quote: b'"', esc: Some(b'\\'), term: Some(b'\n') },
         RFmt { delim: b',', quote: b'"', esc: None, term: Some(b'\r') },
     ];
-    for _ in 0..args.scale(1000, 24000) {
+    for _ in 0..args.scale(1000, 40000) {
         let f = rng.pick(&fmts).clone();
         let ncols = 1 + rng.below(3);
         let mut units: Vec<String> = vec![
@@ -407,7 +407,7 @@ pub fn round_trips(args: &Args, rng: &mut Rng, tr: &mut Shards) -> (usize, usize
     let types = csv_types();
     let mut n = 0;
     let mut skipped = 0;
-    for case in 0..args.scale(900, 16000) {
+    for case in 0..args.scale(900, 30000) {
         let w = WFmt {
             delim: *rng.pick(&[b',', b',', b';', b'\t', b'|']),
             quote: *rng.pick(&[b'"', b'"', b'\'']),
